@@ -90,13 +90,16 @@ type blockFilterer struct {
 	checkedAt map[int]int
 }
 
-// filterBits returns the filter's current bit array (nil when unloaded).
+// filterBits returns a copy of the filter's current bit array (nil when
+// unloaded), taken under the filter's lock so that a scan may run while other
+// goroutines use the filter.
 func (bf *blockFilterer) filterBits() []byte {
-	msg := bf.filter.MsgFilterLoad()
-	if msg == nil {
+	bf.filter.mtx.Lock()
+	defer bf.filter.mtx.Unlock()
+	if bf.filter.msgFilterLoad == nil {
 		return nil
 	}
-	return msg.Filter
+	return append([]byte(nil), bf.filter.msgFilterLoad.Filter...)
 }
 
 type txWithIndex struct {
@@ -117,7 +120,7 @@ func (bf *blockFilterer) checkFilterTx(tx *bchutil.Tx, txIndex int, inputs map[c
 		return
 	}
 	bf.checkedAt[txIndex] = bf.version
-	before := append([]byte(nil), bf.filterBits()...)
+	before := bf.filterBits()
 	matched := bf.filter.MatchTxAndUpdate(tx)
 	if !bytes.Equal(before, bf.filterBits()) {
 		bf.version++
